@@ -57,6 +57,12 @@ def run_one(patch, keep=False, only_prop=None):
         if expect == "silent":
             ok = all(rc == 0 for _, rc, _ in outs)
             msg = "silent" if ok else "FALSE ALARM: " + "; ".join(fired[:3])
+        elif expect == "missed":
+            # a recorded miss (the break lies outside the decided clause): kept so that the record is
+            # re-examined if a later rule starts to fire on it
+            ok = True
+            msg = "known miss: nothing fires (outside the decided clause)" if all(rc == 0 for _, rc, _ in outs) else \
+                  "recorded as a miss but now reported: " + "; ".join(fired[:2])
         else:
             hit = False
             for pr, rc, o in outs:
